@@ -121,7 +121,7 @@ def family(pid, tier, seed):
     elif pid == "C13":
         n, exh, rnd = (24, 3, 60) if quick else (100, 3, 200)
         for i in range(n):
-            g = GG.make_grammar(rng, "g%d" % i, extra_kinds=["int8"] if i % 3 == 0 else [], neglook=False, ks=(0, 1, 2, 3, 4, 99999, -1, -2))
+            g = GG.make_grammar(rng, "g%d" % i, extra_kinds=["int8"] if i % 3 == 0 else [], neglook=False, ks=(0, 1, 2, 3, 4, 99999, -1, -2) if i % 2 else (0, 1, 2, 3, 65536, 99999, 1 << 20, -1))
             seen = set()
             GG.exhaustive_inputs(g, exh, seen)
             GG.random_inputs(g, rng, rnd, 9, seen)
